@@ -12,6 +12,8 @@ from symx.core import Inconclusive, SBool, SInt, SReal, cur, fresh_int, fresh_re
 from symx.harness import SNP, conn_from_cex, stubs_description, sym_connection_list
 from symx.snp import SArr, make_module
 
+from props import alias_common as _alias
+
 ID = "C20"
 NAN_SENTINEL = -987654321.25  # stands for np.nan inside the symbolic run (node values are constrained to differ from it)
 
@@ -360,6 +362,7 @@ def jobs(tier, seed):
             for s in ([(0, 0), (r - 1, c - 1)] if q else [(i, j) for i in range(r) for j in range(c)]):
                 for L in ((1, 2, 3) if kind == "SolvedMaze" else (2, 3)):
                     out.append(dict(h="ascii", kind=kind, r=r, c=c, s=list(s), L=L))
+    out.append(dict(_alias.ALIAS_JOB))  # results must not alias library state, arguments or each other (props/alias_common.py)
     out[0]["twin"] = True
     return out
 
@@ -381,6 +384,7 @@ HARNESSES = {
     "paths": dict(run=_run_paths, replay=_replay_paths, patch=_PATCH),
     "ascii": dict(run=_run_ascii, replay=_replay_ascii, patch=dict(np_modules=[], stub_ascii=False)),
 }
+HARNESSES["alias"] = _alias.alias_harness("C20")
 
 META = dict(
     functions=["MazePlot.__init__", "add_true_path", "add_predicted_path", "add_node_values", "plot (fig_ax supplied)", "_plot_maze", "_lattice_maze_to_img",
@@ -401,3 +405,5 @@ META = dict(
              "the stricter reading 'equals targeted.as_ascii()' is not checked (DESIGN.md section 6)"],
     assumptions=["representation invariant on input mazes", "cell values are finite reals (NaN values are rejected by the code itself)"],
 )
+
+META.setdefault("degenerate", {})["alias"] = _alias.ALIAS_META
